@@ -255,3 +255,471 @@ Ltac mono_tac :=
 Lemma mono_read_message r : mono (read_message P FS ftake r).
 Proof. unfold read_message, read_classic. cbv beta iota zeta. mono_tac. Qed.
 End Mono.
+
+(* ---- arithmetic of _build_packet ------------------------------------------------ *)
+Lemma pad_range bs x : 0 < bs -> 4 <= 3 + bs - x mod bs <= bs + 3.
+Proof. intros H. pose proof (Z.mod_pos_bound x bs H). lia. Qed.
+Lemma pad_align bs x : 0 < bs -> (x + (bs - x mod bs)) mod bs = 0.
+Proof.
+  intros H. rewrite (Z.div_mod x bs) at 1 by lia.
+  replace (bs * (x / bs) + x mod bs + (bs - x mod bs)) with ((x / bs + 1) * bs) by ring.
+  apply Z_mod_mult.
+Qed.
+Lemma pad_ge bs x : 0 < bs -> 0 <= x -> bs <= x + (bs - x mod bs).
+Proof. intros H H0. pose proof (Z.mod_le x bs H0 H). lia. Qed.
+Lemma mod0_sub bs T : 0 < bs -> T mod bs = 0 -> (T - bs) mod bs = 0.
+Proof.
+  intros H H0. rewrite <- (Z.mod_add (T - bs) 1 bs) by lia.
+  replace (T - bs + 1 * bs) with T by ring. exact H0.
+Qed.
+
+Lemma py_slice1_honest padding data1 pad :
+  zlen pad = padding -> 0 <= padding ->
+  py_slice1 (padding :: data1 ++ pad) (zlen data1 + padding + 1 - padding) = data1.
+Proof.
+  intros Hp H0. unfold py_slice1. rewrite zlen_cons, zlen_app.
+  pose proof (zlen_nonneg data1).
+  destruct (zlen data1 + padding + 1 - padding <? 0) eqn:E; [lia|].
+  replace (Z.min (zlen data1 + padding + 1 - padding) (1 + (zlen data1 + zlen pad))) with (zlen data1 + 1) by lia.
+  replace (Z.to_nat (zlen data1 + 1)) with (S (length data1)) by (unfold zlen; lia).
+  cbn [firstn skipn]. now rewrite firstn_app_exact.
+Qed.
+
+Section RT.
+Variable P : prims.
+Variable cinv : Z -> cst P -> cst P -> Prop.
+Variable zinv : zst P -> zst P -> Prop.
+Hypothesis HP : prims_ok P cinv zinv.
+Notation FS := (list Z).
+
+Definition comp_step (zs : option (zst P)) (data : list Z) : list Z * option (zst P) :=
+  match zs with
+  | None => (data, None)
+  | Some z => (fst (z_comp P z data), Some (snd (z_comp P z data)))
+  end.
+
+Definition rollover (seq : Z) (kex : bool) : bool := ((seq + 1) mod 2 ^ 32 =? 0) && negb kex.
+
+Lemma send_message_inv s data rnd w s' :
+  data <> [] -> send_message P s data rnd = Ok (w, s') ->
+  exists packet m',
+    build_packet P s (fst (comp_step (p_z s) data)) rnd = Ok packet /\
+    encrypt_packet P s packet = Ok (w, m') /\
+    rollover (p_seq s) (p_kex s) = false /\
+    s' = with_mode_seq_z P s m' ((p_seq s + 1) mod 2 ^ 32) (snd (comp_step (p_z s) data)).
+Proof.
+  intros Hne H. unfold send_message in H. destruct data as [|d0 dt]; [congruence|].
+  unfold comp_step.
+  destruct (p_z s) as [z|].
+  - destruct (z_comp P z (d0 :: dt)) as [d z2]. cbn [fst snd].
+    destruct (build_packet P s d rnd) as [packet|] eqn:Eb; cbn [bind] in H; [|discriminate].
+    destruct (encrypt_packet P s packet) as [[out m']|] eqn:Ee; cbn [bind fst snd] in H; [|discriminate].
+    unfold rollover. destruct (((p_seq s + 1) mod 2 ^ 32 =? 0) && negb (p_kex s)); [discriminate|].
+    injection H as <- <-. exists packet, m'. repeat split; assumption || reflexivity.
+  - cbn [fst snd].
+    destruct (build_packet P s (d0 :: dt) rnd) as [packet|] eqn:Eb; cbn [bind] in H; [|discriminate].
+    destruct (encrypt_packet P s packet) as [[out m']|] eqn:Ee; cbn [bind fst snd] in H; [|discriminate].
+    unfold rollover. destruct (((p_seq s + 1) mod 2 ^ 32 =? 0) && negb (p_kex s)); [discriminate|].
+    injection H as <- <-. exists packet, m'. repeat split; assumption || reflexivity.
+Qed.
+
+Lemma pad_bytes_facts s padding rnd : 0 <= padding -> bytes_ok rnd = true ->
+  zlen (pad_bytes P s padding rnd) = padding /\ bytes_ok (pad_bytes P s padding rnd) = true.
+Proof.
+  intros H0 Hr. unfold pad_bytes. destruct (p_sdctr s || is_plain P (p_mode s)).
+  - rewrite zlen_repeat. split; [lia|]. now apply bytes_ok_repeat.
+  - split.
+    + unfold zlen. rewrite firstn_length, app_length, repeat_length. lia.
+    + apply bytes_ok_firstn. rewrite bytes_ok_app, Hr. now apply bytes_ok_repeat.
+Qed.
+
+Lemma build_packet_inv s data rnd packet :
+  8 <= p_bs s -> bytes_ok data = true -> bytes_ok rnd = true ->
+  build_packet P s data rnd = Ok packet ->
+  exists padding pad,
+    packet = be_encode 4 (zlen data + padding + 1) ++ (padding :: data ++ pad) /\
+    zlen pad = padding /\ 4 <= padding < 256 /\ 0 <= zlen data + padding + 1 < 2 ^ 32 /\
+    bytes_ok (padding :: data ++ pad) = true /\
+    (zlen data + padding + 1 + (addlen P (p_mode s) - 4)) mod p_bs s = 0 /\
+    p_bs s <= zlen data + padding + 1 + (addlen P (p_mode s) - 4).
+Proof.
+  intros Hbs Hd Hr H. unfold build_packet in H.
+  set (padding := padding_len P (p_bs s) (p_mode s) (zlen data)) in *.
+  destruct ((0 <=? padding) && (padding <? 256) && (zlen data + padding + 1 <? 2 ^ 32)) eqn:G; [|discriminate].
+  injection H as <-.
+  apply andb_true_iff in G as [G G3]. apply andb_true_iff in G as [G1 G2].
+  pose proof (zlen_nonneg data) as Hn.
+  assert (Ha : 0 <= addlen P (p_mode s)) by (destruct (p_mode s); cbn; lia).
+  assert (Hpr : 4 <= padding <= p_bs s + 3) by (apply pad_range; lia).
+  destruct (pad_bytes_facts s padding rnd ltac:(lia) Hr) as [Hl Hb].
+  exists padding, (pad_bytes P s padding rnd). split; [reflexivity|]. split; [exact Hl|].
+  split; [lia|]. split; [lia|]. split.
+  - rewrite bytes_ok_cons, bytes_ok_app, Hd, Hb. cbn [andb]. rewrite andb_true_r. apply byte_ok_iff. lia.
+  - unfold padding, padding_len.
+    replace (zlen data + (3 + p_bs s - (zlen data + addlen P (p_mode s)) mod p_bs s) + 1 + (addlen P (p_mode s) - 4))
+      with ((zlen data + addlen P (p_mode s)) + (p_bs s - (zlen data + addlen P (p_mode s)) mod p_bs s)) by ring.
+    split; [apply pad_align; lia|apply pad_ge; lia].
+Qed.
+
+Lemma comp_step_bytes zs data : bytes_ok data = true -> bytes_ok (fst (comp_step zs data)) = true.
+Proof. intros H. destruct zs; cbn; [now apply (comp_bytes _ _ _ HP)|exact H]. Qed.
+
+Lemma finish_honest r m' padding pad data zs ev :
+  zlen pad = padding -> 0 <= padding -> bytes_ok data = true -> data <> [] ->
+  z_sync zinv zs (p_z r) -> rollover (p_seq r) (p_kex r) = false ->
+  exists zr',
+    finish P r m' (zlen (fst (comp_step zs data)) + padding + 1)
+           (padding :: fst (comp_step zs data) ++ pad) ev
+    = Ok (data, ev, with_mode_seq_z P r m' ((p_seq r + 1) mod 2 ^ 32) zr') /\
+    z_sync zinv (snd (comp_step zs data)) zr'.
+Proof.
+  intros Hp H0 Hb Hne Hz Hro. unfold finish.
+  replace (zlen (fst (comp_step zs data)) + padding + 1 - padding)
+    with (zlen (fst (comp_step zs data)) + padding + 1 - padding) by reflexivity.
+  rewrite py_slice1_honest by assumption.
+  unfold rollover in Hro.
+  destruct zs as [z|]; destruct (p_z r) as [zr|]; cbn in Hz; try contradiction; cbn [comp_step fst snd].
+  - destruct (decomp_comp _ _ _ HP z zr data Hz Hb) as (zd' & E & Hi). rewrite E. cbn [bind fst snd].
+    rewrite Hro. destruct data; [congruence|]. exists (Some zd'). split; [reflexivity|exact Hi].
+  - cbn [bind fst snd]. rewrite Hro. destruct data; [congruence|]. exists None. split; [reflexivity|exact I].
+Qed.
+End RT.
+
+Section RT2.
+Variable P : prims.
+Variable cinv : Z -> cst P -> cst P -> Prop.
+Variable zinv : zst P -> zst P -> Prop.
+Hypothesis HP : prims_ok P cinv zinv.
+Notation FS := (list Z).
+
+Lemma be4_roundtrip size : 0 <= size < 2 ^ 32 -> be_decode (be_encode 4 size) = size.
+Proof. intros H. apply be_decode_encode. change (256 ^ Z.of_nat 4) with (2 ^ 32). exact H. Qed.
+
+Lemma read_classic_honest r header dec dec2 l t o2 tag m' res rest size :
+  8 <= p_bs r -> 0 <= p_msz r -> 0 <= size < 2 ^ 32 ->
+  dec header = (be_encode 4 size ++ l, dec2) ->
+  zlen l = p_bs r - 4 -> size = zlen (l ++ t) -> (size + 4) mod p_bs r = 0 ->
+  zlen o2 = zlen t -> dec2 o2 = (t, m') -> zlen tag = p_msz r ->
+  (0 < p_msz r -> exists c k, p_mode r = Classic c k /\
+                  tag = mac_tag P k (p_msz r) (mac_input (p_seq r) size (l ++ t))) ->
+  finish P r m' size (l ++ t)
+         (if 0 <? p_msz r then EvMac (mac_input (p_seq r) size (l ++ t)) tag else EvNone) = Ok res ->
+  read_classic P FS ftake r header dec (o2 ++ tag ++ rest) = Done res rest.
+Proof.
+  intros Hbs Hmsz Hsz Hdec Hl Hsize Hal Ho2 Hdec2 Htag Hmac Hfin.
+  unfold read_classic. cbv zeta. rewrite Hdec. cbv beta iota.
+  rewrite (firstn_app_exact (be_encode 4 size) l 4), (skipn_app_exact (be_encode 4 size) l 4)
+    by now rewrite be_encode_length.
+  rewrite be4_roundtrip by exact Hsz.
+  replace ((size - zlen l) mod p_bs r =? 0) with true.
+  2:{ symmetry. apply Z.eqb_eq. rewrite Hl. replace (size - (p_bs r - 4)) with (size + 4 - p_bs r) by ring.
+      apply mod0_sub; [lia|exact Hal]. }
+  cbn [negb]. unfold rbind, rtake. rewrite zlen_app in Hsize.
+  rewrite (app_assoc o2 tag rest).
+  rewrite ftake_exact by (rewrite zlen_app; lia).
+  replace (Z.to_nat (size - zlen l)) with (length o2) by (unfold zlen in *; lia).
+  rewrite firstn_app_exact, skipn_app_exact by reflexivity. rewrite Hdec2.
+  destruct (0 <? p_msz r) eqn:Em.
+  - destruct Hmac as (c & k & Hm & Ht); [lia|]. rewrite Hm.
+    rewrite firstn_all2 by (unfold zlen in *; lia). rewrite <- Ht, cteq_refl. cbn [negb].
+    unfold rlift. rewrite Hfin. reflexivity.
+  - unfold rlift. rewrite Hfin. reflexivity.
+Qed.
+
+Lemma seq_next_range q : 0 <= (q + 1) mod 2 ^ 32 < 2 ^ 32.
+Proof. apply Z.mod_pos_bound. lia. Qed.
+
+Opaque be_encode.
+Theorem roundtrip1 s r data rnd w s' :
+  sync cinv zinv s r -> data <> [] -> bytes_ok data = true -> bytes_ok rnd = true ->
+  send_message P s data rnd = Ok (w, s') ->
+  exists ev r',
+    (forall rest, read_message P FS ftake r (w ++ rest) = Done (data, ev, r') rest) /\
+    sync cinv zinv s' r' /\ p_seq s' = (p_seq s + 1) mod 2 ^ 32 /\
+    (is_plain P (p_mode r) = false -> 0 < p_msz r -> ev <> EvNone).
+Proof.
+  intros Hs Hne Hb Hr Hsend.
+  destruct (send_message_inv P s data rnd w s' Hne Hsend) as (packet & m' & Hbuild & Henc & Hro & ->).
+  destruct Hs as (Hbs & Hmsz & Hseq & Hkex & Hbs8 & Hmsz0 & Hseqr & Hmode & Hz).
+  pose proof (comp_step_bytes P cinv zinv HP (p_z s) data Hb) as Hb1.
+  destruct (build_packet_inv P s _ rnd packet Hbs8 Hb1 Hr Hbuild)
+    as (padding & pad & -> & Hpl & Hpr & Hsz & Hbody & Hal & Hge).
+  set (data1 := fst (comp_step P (p_z s) data)) in *.
+  set (size := zlen data1 + padding + 1) in *.
+  set (body := padding :: data1 ++ pad) in *.
+  assert (Hbl : zlen body = size) by (unfold body, size; rewrite zlen_cons, zlen_app; lia).
+  assert (Hror : rollover (p_seq r) (p_kex r) = false) by (rewrite <- Hseq, <- Hkex; exact Hro).
+  pose proof (fun m' ev => finish_honest P cinv zinv HP r m' padding pad data (p_z s) ev Hpl
+                 ltac:(lia) Hb Hne Hz Hror) as Hfin.
+  fold data1 in Hfin. fold size in Hfin. fold body in Hfin.
+  rewrite Hbs in Hal, Hge, Hbs8. rewrite Hmsz in Hmsz0.
+  assert (Hsync : forall ms mr zr', mode_sync cinv (p_bs s) (p_msz s) ms mr ->
+            z_sync zinv (snd (comp_step P (p_z s) data)) zr' ->
+            sync cinv zinv (with_mode_seq_z P s ms ((p_seq s + 1) mod 2 ^ 32) (snd (comp_step P (p_z s) data)))
+                 (with_mode_seq_z P r mr ((p_seq r + 1) mod 2 ^ 32) zr')).
+  { intros ms mr zr' Hm Hz'. unfold sync. cbn [with_mode_seq_z p_bs p_msz p_seq p_kex p_mode p_z].
+    pose proof (seq_next_range (p_seq s)). rewrite <- Hseq.
+    repeat split; try assumption; try lia. }
+  unfold encrypt_packet in Henc.
+  destruct (p_mode s) as [|se k|se k|ak iv] eqn:Ems; destruct (p_mode r) as [|sd k'|sd k'|ak' iv'] eqn:Emr;
+    cbn [mode_sync] in Hmode; try contradiction; cbn [addlen] in Hal, Hge.
+  - (* cleartext *)
+    injection Henc as <- <-.
+    destruct (split_at body (p_bs r - 4)) as (l & t & Hlt & Hll); [unfold zlen in *; lia|].
+    destruct (Hfin Plain EvNone) as (zr' & Hf & Hz').
+    exists EvNone, (with_mode_seq_z P r Plain ((p_seq r + 1) mod 2 ^ 32) zr'). split; [|split; [|split]].
+    + intros rest. unfold read_message. cbv zeta. unfold rbind at 1. unfold rtake at 1.
+      rewrite Hlt, <- !app_assoc, (app_assoc (be_encode 4 size) l).
+      rewrite ftake_exact by (rewrite zlen_app, zlen_be; unfold zlen in *; lia).
+      rewrite Emr. change (t ++ rest) with (t ++ [] ++ rest).
+      eapply read_classic_honest with (l := l) (t := t) (m' := Plain) (size := size);
+        try reflexivity; try lia.
+      * unfold zlen in *; lia.
+      * rewrite <- Hlt. symmetry. exact Hbl.
+      * replace (size + 4) with (size + (8 - 4)) by ring. exact Hal.
+      * rewrite zlen_nil. lia.
+      * rewrite <- Hlt. rewrite <- Hmsz, Hmode. cbn. exact Hf.
+    + apply Hsync; [cbn; exact Hmode|exact Hz'].
+    + reflexivity.
+    + cbn. discriminate.
+  - (* classic *)
+    destruct Hmode as (<- & Hc & Htl).
+    destruct (c_enc P se (be_encode 4 size ++ body)) as [o c'] eqn:Ec. injection Henc as <- <-.
+    assert (Hpb : bytes_ok (be_encode 4 size ++ body) = true) by (rewrite bytes_ok_app, be_encode_ok, Hbody; reflexivity).
+    assert (Hpm : zlen (be_encode 4 size ++ body) mod p_bs r = 0).
+    { rewrite zlen_app, zlen_be, Hbl. replace (Z.of_nat 4 + size) with (size + (8 - 4)) by lia. exact Hal. }
+    rewrite Hbs in Hc.
+    destruct (dec_enc _ _ _ HP (p_bs r) se sd _ Hc Hpb Hpm) as [Hd Hc']. rewrite Ec in Hd, Hc'. cbn [fst snd] in Hd, Hc'.
+    pose proof (enc_len _ _ _ HP se (be_encode 4 size ++ body)) as Hol. rewrite Ec in Hol. cbn [fst] in Hol.
+    rewrite app_length, be_encode_length in Hol.
+    destruct (split_at o (p_bs r)) as (o1 & o2 & Ho & Ho1); [unfold zlen in *; lia|]. subst o.
+    destruct (split_at body (p_bs r - 4)) as (l & t & Hlt & Hll); [unfold zlen in *; lia|].
+    assert (Ho1m : zlen o1 mod p_bs r = 0) by (unfold zlen; rewrite Ho1; apply Z_mod_same_full).
+    pose proof (dec_split _ _ _ HP (p_bs r) se sd o1 o2 Hc Ho1m) as Hsp.
+    rewrite Hsp in Hd, Hc'. cbn [fst snd] in Hd, Hc'.
+    assert (Hd12 : fst (c_dec P sd o1) = be_encode 4 size ++ l /\
+                   fst (c_dec P (snd (c_dec P sd o1)) o2) = t).
+    { apply app_inv_len.
+      - rewrite (dec_len _ _ _ HP), app_length, be_encode_length. lia.
+      - rewrite Hd, Hlt, app_assoc. reflexivity. }
+    destruct Hd12 as [Hd1 Hd2].
+    set (mp := mac_input (p_seq r) size body).
+    set (tag := mac_tag P k (p_msz s) (be_encode 4 (p_seq s) ++ be_encode 4 size ++ body)).
+    assert (Htag : tag = mac_tag P k (p_msz r) mp) by (unfold tag, mp, mac_input; now rewrite Hseq, Hmsz).
+    set (mr' := Classic (snd (c_dec P (snd (c_dec P sd o1)) o2)) k).
+    destruct (Hfin mr' (if 0 <? p_msz r then EvMac mp tag else EvNone)) as (zr' & Hf & Hz').
+    exists (if 0 <? p_msz r then EvMac mp tag else EvNone),
+           (with_mode_seq_z P r mr' ((p_seq r + 1) mod 2 ^ 32) zr'). split; [|split; [|split]].
+    + intros rest. unfold read_message. cbv zeta. unfold rbind at 1. unfold rtake at 1.
+      rewrite <- !app_assoc. rewrite ftake_exact by (unfold zlen; lia).
+      rewrite Emr.
+      eapply read_classic_honest with (l := l) (t := t) (m' := mr') (size := size)
+          (dec2 := fun rest0 => (fst (c_dec P (snd (c_dec P sd o1)) rest0),
+                                 Classic (snd (c_dec P (snd (c_dec P sd o1)) rest0)) k));
+        try lia.
+      * cbv beta. rewrite Hd1. reflexivity.
+      * unfold zlen in *; lia.
+      * rewrite <- Hlt. symmetry. exact Hbl.
+      * replace (size + 4) with (size + (8 - 4)) by ring. exact Hal.
+      * rewrite <- Hd2. unfold zlen. now rewrite (dec_len _ _ _ HP).
+      * cbv beta. rewrite Hd2. reflexivity.
+      * rewrite <- Hmsz. apply Htl.
+      * intros _. exists sd, k. split; [exact Emr|]. rewrite <- Hlt. exact Htag.
+      * rewrite <- Hlt. exact Hf.
+    + apply Hsync; [|exact Hz']. cbn. rewrite Hbs. auto.
+    + reflexivity.
+    + intros _ Hm. destruct (0 <? p_msz r) eqn:E; [discriminate|lia].
+  - (* encrypt-then-MAC *)
+    destruct Hmode as (<- & Hc & Htl).
+    rewrite (firstn_app_exact (be_encode 4 size) body 4), (skipn_app_exact (be_encode 4 size) body 4) in Henc
+      by now rewrite be_encode_length.
+    destruct (c_enc P se body) as [o c'] eqn:Ec. injection Henc as <- <-.
+    assert (Hpm : zlen body mod p_bs r = 0) by (rewrite Hbl; replace size with (size + (4 - 4)) by ring; exact Hal).
+    rewrite Hbs in Hc.
+    destruct (dec_enc _ _ _ HP (p_bs r) se sd _ Hc Hbody Hpm) as [Hd Hc']. rewrite Ec in Hd, Hc'. cbn [fst snd] in Hd, Hc'.
+    pose proof (enc_len _ _ _ HP se body) as Hol. rewrite Ec in Hol. cbn [fst] in Hol.
+    destruct (split_at o (p_bs r - 4)) as (oa & ob & Ho & Hoa); [unfold zlen in *; lia|].
+    set (mp := mac_input (p_seq r) size o).
+    set (tag := mac_tag P k (p_msz s) (be_encode 4 (p_seq s) ++ be_encode 4 size ++ o)).
+    assert (Htag : mac_tag P k (p_msz r) mp = tag) by (unfold tag, mp, mac_input; now rewrite Hseq, Hmsz).
+    destruct (Hfin (Etm (snd (c_dec P sd o)) k) (EvMac mp tag)) as (zr' & Hf & Hz').
+    exists (EvMac mp tag), (with_mode_seq_z P r (Etm (snd (c_dec P sd o)) k) ((p_seq r + 1) mod 2 ^ 32) zr').
+    split; [|split; [|split]].
+    + intros rest. unfold read_message. cbv zeta. unfold rbind, rtake.
+      replace ((be_encode 4 size ++ o) ++ mac_tag P k (p_msz s) (be_encode 4 (p_seq s) ++ be_encode 4 size ++ o))
+        with ((be_encode 4 size ++ o) ++ tag) by (unfold tag; now rewrite <- app_assoc).
+      rewrite Ho at 1. rewrite <- !app_assoc, (app_assoc (be_encode 4 size) oa).
+      rewrite ftake_exact by (rewrite zlen_app, zlen_be; unfold zlen in *; lia).
+      rewrite Emr.
+      rewrite (firstn_app_exact (be_encode 4 size) oa 4), (skipn_app_exact (be_encode 4 size) oa 4)
+        by now rewrite be_encode_length.
+      rewrite be4_roundtrip by exact Hsz.
+      rewrite ftake_exact by (unfold zlen in *; rewrite Ho, app_length in Hol; lia).
+      rewrite ftake_exact by (rewrite <- Hmsz; apply Htl).
+      rewrite <- Ho. fold mp. rewrite Htag, cteq_refl. cbn [negb].
+      rewrite Hd. unfold rlift. rewrite Hf. reflexivity.
+    + apply Hsync; [|exact Hz']. cbn. rewrite Hbs. auto.
+    + reflexivity.
+    + intros _ _. discriminate.
+  - (* AEAD *)
+    destruct Hmode as (<- & <- & Hm16).
+    rewrite (firstn_app_exact (be_encode 4 size) body 4), (skipn_app_exact (be_encode 4 size) body 4) in Henc
+      by now rewrite be_encode_length.
+    destruct (inc_iv iv) as [iv2|] eqn:Ei; cbn [bind] in Henc; [|discriminate]. injection Henc as <- <-.
+    set (ct := a_enc P ak iv body (be_encode 4 size)).
+    pose proof (aead_len _ _ _ HP ak iv body (be_encode 4 size)) as Hcl. fold ct in Hcl.
+    destruct (split_at ct (p_bs r - 4)) as (ca & cb & Hct & Hca); [unfold zlen in *; lia|].
+    destruct (Hfin (Aead ak iv2) (EvAead iv (be_encode 4 size) ct)) as (zr' & Hf & Hz').
+    exists (EvAead iv (be_encode 4 size) ct), (with_mode_seq_z P r (Aead ak iv2) ((p_seq r + 1) mod 2 ^ 32) zr').
+    split; [|split; [|split]].
+    + intros rest. unfold read_message. cbv zeta. unfold rbind, rtake.
+      rewrite Hct at 1. rewrite <- !app_assoc, (app_assoc (be_encode 4 size) ca).
+      rewrite ftake_exact by (rewrite zlen_app, zlen_be; unfold zlen in *; lia).
+      rewrite Emr.
+      rewrite (firstn_app_exact (be_encode 4 size) ca 4), (skipn_app_exact (be_encode 4 size) ca 4)
+        by now rewrite be_encode_length.
+      rewrite be4_roundtrip by exact Hsz.
+      rewrite <- (app_nil_r cb) at 1. rewrite <- app_assoc. cbn [app].
+      rewrite ftake_exact by (unfold zlen in *; rewrite Hct, app_length in Hcl; lia).
+      rewrite <- Hct. unfold ct. rewrite (aead_dec_enc _ _ _ HP) by exact Hbody.
+      rewrite Ei. cbn [bind]. unfold rlift. fold ct. rewrite Hf. reflexivity.
+    + apply Hsync; [|exact Hz']. cbn. auto.
+    + reflexivity.
+    + intros _ _. discriminate.
+Qed.
+Transparent be_encode.
+End RT2.
+
+Section Lists.
+Variable P : prims.
+Variable cinv : Z -> cst P -> cst P -> Prop.
+Variable zinv : zst P -> zst P -> Prop.
+Hypothesis HP : prims_ok P cinv zinv.
+Notation FS := (list Z).
+
+Lemma sync_set_cipher s r ms mr bs msz sd1 sd2 zs zr :
+  sync cinv zinv s r -> 8 <= bs -> 0 <= msz -> mode_sync cinv bs msz ms mr -> z_sync zinv zs zr ->
+  sync cinv zinv (set_cipher P s ms bs msz sd1 zs) (set_cipher P r mr bs msz sd2 zr).
+Proof.
+  intros (Hbs & Hmsz & Hseq & Hkex & Hbs8 & Hmsz0 & Hseqr & Hmode & Hz) H1 H2 H3 H4.
+  unfold sync. cbn. repeat split; try assumption; lia.
+Qed.
+
+Lemma sync_reset s r : sync cinv zinv s r -> sync cinv zinv (reset_seqno P s) (reset_seqno P r).
+Proof.
+  intros (Hbs & Hmsz & Hseq & Hkex & Hbs8 & Hmsz0 & Hseqr & Hmode & Hz).
+  unfold sync. cbn. repeat split; try assumption; lia.
+Qed.
+
+(* round trip of whole sessions: messages, key switches, seqno resets *)
+Theorem roundtrip_ops : forall ops s r ws s',
+  sync cinv zinv s r -> ops_ok cinv zinv ops -> send_ops P s ops = Ok (ws, s') ->
+  forall rest, exists r',
+    recv_ops P r ops (concat ws ++ rest) = Some (payloads P ops, r', rest) /\ sync cinv zinv s' r'.
+Proof.
+  induction ops as [|o ops IH]; intros s r ws s' Hs Hok Hsend rest.
+  - cbn in Hsend. injection Hsend as <- <-. exists r. cbn. auto.
+  - destruct o as [p rnd | ms mr bs msz sd zs zr | ].
+    + cbn [send_ops] in Hsend. destruct Hok as (Hne & Hb & Hr & Hok).
+      destruct (send_message P s p rnd) as [[w s1]|] eqn:E1; cbn [bind fst snd] in Hsend; [|discriminate].
+      destruct (send_ops P s1 ops) as [[wt sf]|] eqn:E2; cbn [bind fst snd] in Hsend; [|discriminate].
+      injection Hsend as <- <-.
+      destruct (roundtrip1 P cinv zinv HP s r p rnd w s1 Hs Hne Hb Hr E1) as (ev & r1 & Hrd & Hs1 & _).
+      destruct (IH s1 r1 wt sf Hs1 Hok E2 rest) as (r' & Hrec & Hs').
+      exists r'. split; [|exact Hs']. cbn [recv_ops concat payloads]. unfold read_message_flat.
+      rewrite <- app_assoc, Hrd, Hrec. reflexivity.
+    + cbn [send_ops] in Hsend. destruct Hok as (H1 & H2 & H3 & H4 & Hok).
+      cbn [recv_ops payloads]. eapply IH; eauto. now apply sync_set_cipher.
+    + cbn [send_ops] in Hsend. cbn [recv_ops payloads]. eapply IH; eauto. now apply sync_reset.
+Qed.
+
+(* sequence numbers: equal on both sides after every session, counting packets mod 2^32 *)
+Theorem seqno_agree ops s r ws s' :
+  sync cinv zinv s r -> ops_ok cinv zinv ops -> send_ops P s ops = Ok (ws, s') ->
+  exists r', recv_ops P r ops (concat ws) = Some (payloads P ops, r', []) /\
+             p_seq s' = p_seq r' /\ 0 <= p_seq r' < 2 ^ 32.
+Proof.
+  intros Hs Hok Hsend. destruct (roundtrip_ops ops s r ws s' Hs Hok Hsend []) as (r' & H & Hs').
+  rewrite app_nil_r in H. exists r'. split; [exact H|].
+  destruct Hs' as (_ & _ & Hseq & _ & _ & _ & Hr & _). split; [exact Hseq|]. now rewrite <- Hseq.
+Qed.
+
+Theorem seqno_step s r data rnd w s' :
+  sync cinv zinv s r -> data <> [] -> bytes_ok data = true -> bytes_ok rnd = true ->
+  send_message P s data rnd = Ok (w, s') ->
+  p_seq s' = (p_seq s + 1) mod 2 ^ 32 /\
+  (p_seq s = 2 ^ 32 - 1 -> p_seq s' = 0 /\ p_kex s = true).
+Proof.
+  intros Hs Hne Hb Hr Hsend.
+  destruct (send_message_inv P s data rnd w s' Hne Hsend) as (packet & m' & _ & _ & Hro & ->).
+  cbn [with_mode_seq_z p_seq]. split; [reflexivity|]. intros E. rewrite E in *.
+  unfold rollover in Hro. change ((2 ^ 32 - 1 + 1) mod 2 ^ 32) with 0 in *. cbn in Hro.
+  split; [reflexivity|]. now destruct (p_kex s).
+Qed.
+
+(* a strict prefix of a packet blocks (NeedMore), whatever the mode *)
+Theorem prefix_blocks s r data rnd w s' q :
+  sync cinv zinv s r -> data <> [] -> bytes_ok data = true -> bytes_ok rnd = true ->
+  send_message P s data rnd = Ok (w, s') -> strict_prefix q w ->
+  read_message P FS ftake r q = Need.
+Proof.
+  intros Hs Hne Hb Hr Hsend Hq.
+  destruct (roundtrip1 P cinv zinv HP s r data rnd w s' Hs Hne Hb Hr Hsend) as (ev & r1 & Hrd & _).
+  destruct (mono_read_message P r _ _ _ (Hrd [])) as (c & Hc & _ & N).
+  rewrite !app_nil_r in Hc. subst c. apply N, Hq.
+Qed.
+
+Fixpoint all_msgs (ops : list (op P)) : Prop :=
+  match ops with [] => True | OMsg _ _ :: t => all_msgs t | _ => False end.
+
+(* the complete messages are delivered in order, then the reader blocks on the partial one:
+   no loss, duplication or merging *)
+Theorem read_many_prefix : forall ops s r ws s' q,
+  sync cinv zinv s r -> ops_ok cinv zinv ops -> all_msgs ops -> send_ops P s ops = Ok (ws, s') ->
+  (q = [] \/ exists p rnd w s'', p <> [] /\ bytes_ok p = true /\ bytes_ok rnd = true /\
+                                send_message P s' p rnd = Ok (w, s'') /\ strict_prefix q w) ->
+  forall fuel, (length ops < fuel)%nat ->
+  exists evs r', read_many P FS ftake fuel r (concat ws ++ q) = (payloads P ops, evs, FNeed, r', q) /\
+                 sync cinv zinv s' r'.
+Proof.
+  induction ops as [|o ops IH]; intros s r ws s' q Hs Hok Hall Hsend Hq fuel Hfuel.
+  - cbn in Hsend. injection Hsend as <- <-. destruct fuel as [|f]; [cbn in Hfuel; lia|].
+    exists [], r. split; [|exact Hs]. cbn [concat app read_many payloads].
+    assert (N : read_message P FS ftake r q = Need).
+    { destruct Hq as [-> | (p & rnd & w & s'' & H1 & H2 & H3 & H4 & H5)].
+      - unfold read_message. cbv zeta. unfold rbind, rtake.
+        destruct Hs as (Hbs & _ & _ & _ & Hbs8 & _). rewrite ftake_short; [reflexivity|lia|rewrite zlen_nil; lia].
+      - eapply prefix_blocks; eauto. }
+    now rewrite N.
+  - destruct o as [p rnd | | ]; try contradiction.
+    cbn [send_ops] in Hsend. destruct Hok as (Hne & Hb & Hr & Hok). cbn [all_msgs] in Hall.
+    destruct (send_message P s p rnd) as [[w s1]|] eqn:E1; cbn [bind fst snd] in Hsend; [|discriminate].
+    destruct (send_ops P s1 ops) as [[wt sf]|] eqn:E2; cbn [bind fst snd] in Hsend; [|discriminate].
+    injection Hsend as <- <-.
+    destruct (roundtrip1 P cinv zinv HP s r p rnd w s1 Hs Hne Hb Hr E1) as (ev & r1 & Hrd & Hs1 & _).
+    destruct fuel as [|f]; [cbn in Hfuel; lia|]. cbn [length] in Hfuel.
+    destruct (IH s1 r1 wt sf q Hs1 Hok Hall E2 Hq f ltac:(lia)) as (evs & r' & Hrm & Hs').
+    exists (ev :: evs), r'. split; [|exact Hs'].
+    cbn [read_many concat payloads]. rewrite <- app_assoc, Hrd, Hrm. reflexivity.
+Qed.
+
+(* fragmentation independence: any two chunkings of the same byte stream give the same result *)
+Theorem chunking_independent fuel (r : pstate P) (s1 s2 : list (list Z)) :
+  ne s1 -> ne s2 -> concat s1 = concat s2 ->
+  let '(ps1, evs1, f1, r1, rest1) := read_many P (list (list Z)) stake fuel r s1 in
+  let '(ps2, evs2, f2, r2, rest2) := read_many P (list (list Z)) stake fuel r s2 in
+  ps1 = ps2 /\ f1 = f2 /\ r1 = r2 /\ concat rest1 = concat rest2.
+Proof.
+  intros H1 H2 E. pose proof (sim_read_many P fuel r s1 H1) as A.
+  pose proof (sim_read_many P fuel r s2 H2) as B.
+  destruct (read_many P (list (list Z)) stake fuel r s1) as [[[[ps1 evs1] f1] r1] rest1].
+  destruct (read_many P (list (list Z)) stake fuel r s2) as [[[[ps2 evs2] f2] r2] rest2].
+  rewrite E in A. rewrite A in B. injection B as -> _ -> -> ->. auto.
+Qed.
+
+Theorem chunked_equals_flat fuel (r : pstate P) (s : list (list Z)) :
+  ne s ->
+  let '(ps, evs, fi, rf, sf) := read_many P (list (list Z)) stake fuel r s in
+  read_many P FS ftake fuel r (concat s) = (ps, evs, fi, rf, concat sf).
+Proof. apply sim_read_many. Qed.
+End Lists.
